@@ -27,15 +27,16 @@ BOUND = 6
 
 DECLS = """
   type tt
-    integer :: c
+    integer :: c, d
+    integer :: v(-20:20)
     real :: w
   end type tt
-  integer :: a, b, c, d, arr(-20:20), ri
+  integer :: a, b, c, d, e, f, arr(-20:20), ri
   real :: x, y, z, rr
   logical :: p, q, rl
   type(tt) :: t1
 """
-INTS, REALS, LOGS = ['a', 'b', 'c', 'd', 't1%c'], ['x', 'y', 'z', 't1%w'], ['p', 'q']
+INTS, REALS, LOGS = ['a', 'b', 'c', 'd', 'e', 'f', 't1%c', 't1%d'], ['x', 'y', 'z', 't1%w'], ['p', 'q']
 
 
 def chains(operands, ops, n, lead_minus=True, parens=True):
@@ -72,6 +73,15 @@ def build_family(tier):
     iops = ['+', '-', '*', '/', '**']
     for n in (1, 2, 3):
         fam += [('i', s) for s in chains(['a', 'b', 'c', 'd'], iops, n)]
+    # long multiplicative chains (association must hold at any length)
+    for n in (4, 5, 6):
+        fam += [('i', s) for s in chains(['a', 'b', 'c', 'd', 'e', 'f', 'a'], ['*', '/'], n, lead_minus=(n == 4), parens=False)]
+    fam += [('i', 'a*(b/c)*d*e'), ('i', 'a*b/(c*d)*e/f'), ('i', 'a*b/c*d*e*f/a*b'), ('i', 'a - b*c/d*e/f + a')]
+    # components and subscripts next to every operator
+    for op in ['+', '-', '*', '/', '**']:
+        o = op if op == '**' else f' {op} '
+        fam += [('i', f't1%c{o}b'), ('i', f'a{o}t1%c'), ('i', f't1%c{o}t1%d'), ('i', f'arr(a){o}b'), ('i', f'a{o}arr(b)'),
+                ('i', f't1%v(a){o}b'), ('i', f't1%c{o}max(a, b)'), ('i', f't1%c{o}arr(b){o}a')]
     if tier == 'thorough':
         fam += [('i', s) for s in chains(['a', 'b', 'c', 'd', 'a'], ['+', '-', '*', '/', '**'], 4, parens=False)]
         fam += [('i', s) for s in chains(['a', '2', 'c', '3'], iops, 3)]
@@ -138,11 +148,11 @@ def frontend_trees(strings):
 class Enc(ExprEnc):
     def lookup(self, e):
         name = e.name.lower()
-        if name == 'arr':
+        if name in ('arr', 't1%v'):
             dims = getattr(e, 'dimensions', None)
             if not dims:
-                raise NotEncoded('whole arr')
-            return self.sem.int_app('arr', [self.enc(dims[0])], BOUND)
+                raise NotEncoded('whole array')
+            return self.sem.int_app(name.replace('%', '_'), [self.enc(dims[0])], BOUND)
         return super().lookup(e)
 
 
@@ -156,8 +166,8 @@ def make_env(sem):
 
 def ref_term(ast, sem, env):
     def call(name, args):
-        if name.lower() == 'arr':
-            return sem.int_app('arr', [args[0]], BOUND)
+        if name.lower() in ('arr', 't1%v'):
+            return sem.int_app(name.lower().replace('%', '_'), [args[0]], BOUND)
         return None
     return ast_to_z3(ast, sem, env, call)
 
@@ -285,7 +295,7 @@ def replay_candidate(rec):
         setv.append(f'  {n} = real({v[0]})/real({v[1]})')
     for n in LOGS:
         setv.append(f"  {n} = {'.true.' if model.get(n) else '.false.'}")
-    setv.append('  do k=-20,20\n    arr(k) = k*k - 3*k + 1\n  end do')
+    setv.append('  do k=-20,20\n    arr(k) = k*k - 3*k + 1\n    t1%v(k) = 7 - k\n  end do')
     head = f'program rp\n  implicit none\n{decl}\n' + '\n'.join(setv)
     ok0, out0, err0 = RP.run_fortran([('rp.f90', head + f"\n  print *, {rec['s']}\nend program rp\n")])
     if not ok0:
